@@ -9,6 +9,7 @@ normal forms are unique; when extra relations are present a Groebner basis is co
 """
 from __future__ import annotations
 
+import os
 import random
 from fractions import Fraction
 
@@ -151,12 +152,64 @@ def eval_at(expr, pt, alg):
     return complex(sp.N(sp.sympify(expr).subs(sub), 30))
 
 
+# thorough tier: every identity accepted by the normal form is re-evaluated at random rational points with 40 digits
+# (an independent path through sympy: substitution + numerical evaluation instead of polynomial reduction); a non-zero
+# value is a disagreement of the two procedures and makes the run a checker error
+XC = {"agree": 0, "skipped": 0, "disagree": []}
+
+
+def _crosscheck(diff, alg):
+    try:
+        if diff == 0:
+            return
+        if getattr(alg, "sqrt_hook", None) is not None or getattr(alg, "abs_hook", None) is not None \
+                or diff.atoms(sp.core.function.AppliedUndef):
+            XC["skipped"] += 1          # branch choices made by a hook / uninterpreted functions: no principal-branch evaluation
+            return
+        atoms = set(getattr(alg, "atoms", {})) | set(getattr(alg, "abs_atoms", {}))
+        for cs in getattr(alg, "trig", {}).values():
+            atoms |= set(cs)
+        rel_syms = set()
+        for rad in list(getattr(alg, "atoms", {}).values()) + list(getattr(alg, "abs_atoms", {}).values()) + \
+                list(getattr(alg, "trig", {}).keys()):
+            rel_syms |= sp.sympify(rad).free_symbols
+        free = sorted((diff.free_symbols | rel_syms) - atoms, key=str)
+        if not free:
+            XC["skipped"] += 1
+            return
+        for sd in (11, 12):
+            pt = numeric_point(free, seed=sd)
+            sub = dict(pt)
+            for a, rad in alg.atoms.items():
+                sub[a] = sp.sqrt(sp.sympify(rad).subs(sub))
+            for a, ex in getattr(alg, "abs_atoms", {}).items():
+                sub[a] = sp.Abs(sp.sympify(ex).subs(sub))
+            for arg, (c, s_) in getattr(alg, "trig", {}).items():
+                av = sp.sympify(arg).subs(sub)
+                sub[c], sub[s_] = sp.cos(av), sp.sin(av)
+            if any(sp.sympify(v).is_real is False or sp.sympify(v).has(sp.zoo, sp.nan) for v in sub.values()):
+                XC["skipped"] += 1      # radicand negative at this point: outside the atoms' domain
+                continue
+            v = sp.N(diff.subs(sub), 40)
+            if not v.is_number:
+                XC["skipped"] += 1
+                continue
+            if abs(complex(v)) > 1e-25:
+                XC["disagree"].append("normal form 0 but value %s at %s for %s" % (v, pt, sp.sstr(diff)[:300]))
+                return
+        XC["agree"] += 1
+    except Exception:
+        XC["skipped"] += 1
+
+
 def require_identity(reducer, lhs, rhs, key_prefix="residual", symbols=None, replay_builder=None,
                      positive=(), constraints=None):
     """Raise Refuted (with a witness point when one is found) unless lhs == rhs identically."""
     diff = sp.sympify(lhs) - sp.sympify(rhs)
     ok, rem = reducer.is_zero(diff)
     if ok:
+        if os.environ.get("PYVC_TIER") == "thorough":
+            _crosscheck(diff, reducer.alg)
         return
     rs = sp.factor(rem)
     key = "%s=%s" % (key_prefix, sp.sstr(rs)[:200])
